@@ -608,7 +608,7 @@ var c19Workers = []int{1, 2, 4, 16, -1}
 
 func c19ExtractCases(c *Ctx) error {
 	r := c.Rng.Fork()
-	n := c.N(24, 160)
+	n := c.N(24, 300)
 	for i := 0; i < n; i++ {
 		cr := r.Fork()
 		class := c19Classes[i%len(c19Classes)]
@@ -845,6 +845,7 @@ func c19FreezeRun(z []byte, out string, workers int, resume string, killAfter in
 		ch <- res{cls, msg, r}
 	}()
 	deadline := time.After(120 * time.Second)
+	var frozenAt time.Time
 	tick := time.NewTicker(300 * time.Microsecond)
 	defer tick.Stop()
 	for {
@@ -862,7 +863,18 @@ func c19FreezeRun(z []byte, out string, workers int, resume string, killAfter in
 			close(f.release)
 			return c19Run{Class: "hang", Msg: "extraction did not finish in 120 s"}, false, -1, nil, nil
 		case <-tick.C:
-			if !f.isFrozen() || !c19Quiescent() {
+			if !f.isFrozen() {
+				continue
+			}
+			if frozenAt.IsZero() {
+				frozenAt = time.Now()
+			}
+			// all goroutines of the call parked: the directory is exactly a crash state.  Should
+			// parking not be recognised (another Go runtime naming its wait states differently)
+			// the capture is taken after 3 s anyway, resume file first: what the resume file
+			// vouches for was complete before it was written, so the capture can only be more
+			// complete than a crash state, never less - no false alarm either way.
+			if !c19Quiescent() && time.Since(frozenAt) < 3*time.Second {
 				continue
 			}
 			lastDone = c19ReadResume(resume)
@@ -1163,7 +1175,7 @@ func c19ResumeCorpus(c *Ctx) error {
 
 func c19ResumeCases(c *Ctx) error {
 	r := c.Rng.Fork()
-	n := c.N(8, 30)
+	n := c.N(8, 50)
 	maxPoints := 8
 	if c.Thorough() {
 		maxPoints = 16
